@@ -160,6 +160,46 @@ NEEDS = {
     'C19-8': 'standard trait attached to a provider, then DELETE /traits/<it>',
     'C20-7': 'microversion 1.10-1.28, nested providers, a child alone satisfying the request',
     'C20-8': 'randomisation off, >= 2 candidates, the same request issued twice',
+    'C09-9': 'microversion 1.14-1.36: first parent given to a top-level provider that already has children (or one of its own descendants named as parent)',
+    'C09-10': 'DELETE of a top-level provider interrupted (crash / database error) between its two commits',
+    'C03-9': 'nested/sharing provider present; one unsuffixed group with >= 3 classes whose first two classes (query order) share no tree',
+    'C03-10': 'member_of=in:X,Y / !in:X,Y where one listed aggregate was never associated with any provider (no aggregate row)',
+    'C05-9': 'reshaper listing a provider with empty inventories and clearing a consumer allocated there, raced by a write on that provider (server-side retry leaks the fresh generation)',
+    'C05-10': 'PUT inventories carrying generation exactly 0 when the provider has moved past 0',
+    'C02-9': '>= 1.32 member_of=!AGG on the only in-tree supplier of one of >= 2 requested classes (non-root or sharing), nested/sharing provider present',
+    'C02-10': 'two request groups asking one class with different amounts on an inventory with min_unit/step_size > 1',
+    'C04-9': 'POST /reshaper naming a provider that has inventory with inventories {} (everything moves away) while a foreign consumer still holds allocations there',
+    'C04-10': 'POST /reshaper with reserved > total in some inventory and a not-yet-existing consumer in allocations',
+    'C01-9': 'POST /reshaper whose re-placed allocations break min_unit/max_unit/step_size of the inventory they land on while fitting capacity (two files)',
+    'C01-10': 'capacity with a fractional part above .5 (e.g. total 3, ratio 1.6) and writes bringing usage up to the rounded value',
+    'C06-9': 'database deadlock raised right after the consumer generation bump (or at COMMIT) of one writer, second writer with the same generation committing during the retry back-off',
+    'C06-10': 'two PUTs with one generation, the second preempted between ensure_consumer and its read of the stored allocations and asking for exactly what is stored when it resumes',
+    'C07-9': 'DELETE allocations split between read and write transaction by a PUT replacing the consumer rows under new ids (another consumer holds a later row)',
+    'C07-10': 'DELETE /traits/X (in-use check moved to its own transaction) raced by a PUT provider traits newly associating X',
+    'C08-9': 'DELETE of a provider that has at least two kinds of dependents (inventory plus traits or aggregates)',
+    'C08-10': 'DELETE /traits/X preempted between its usage check and its write transaction by a PUT provider traits adding X',
+    'C10-9': 'multi-consumer POST /allocations clearing one consumer, raced by DELETE allocations of that consumer between the generation check and the read of the allocations to clear',
+    'C10-10': 'reshaper naming a not-yet-existing consumer and refused in the provider loop (stale generation / unknown provider)',
+    'C11-9': 'reshaper changing the capacity of a class the provider already has, with allocations valid under only one of the old and new values',
+    'C11-10': 'PUT /allocations/{c} with allocations {} at 1.12-1.27',
+    'C12-9': 'POST /allocations at 1.13-1.27 with an empty entry for a non-existing consumer, then a generation-null write at >= 1.28',
+    'C12-10': 'one POST /allocations or reshaper where a not-yet-existing consumer precedes (body order) an entry refused 409 in the consumer stage',
+    'C13-9': '>= 1.22 forbidden traits mixing a known and an unknown name',
+    'C13-10': 'nested tree whose root is directly in aggregate A while descendants are not; member_of=A / !A',
+    'C15-9': 'same_subtree made only of separators/blanks (>= 1.36) in a deployment with at least one candidate',
+    'C15-10': 'valid inventory write with an Accept header excluding application/json (two files)',
+    'C16-9': 'same reader: allowed GET /usages?project_id=own first, then GET /usages?project_id=other in the same process (two files)',
+    'C16-10': 'no credentials plus an unsupported or unparsable microversion header (two files)',
+    'C20-9': 'limit < M, randomisation off, >= 2 groups whose combinations are partly rejected inside one anchor (isolate / same_subtree / capacity) (two files)',
+    'C20-10': 'exactly microversion 1.16 with limit < M',
+    'C14-9': 'GET /allocation_candidates at 1.10/1.11 (list form) returning at least two candidates; content compared with 1.12+',
+    'C14-10': 'inventory write with reserved > total at >= 1.26 (exception hierarchy changed in another file)',
+    'C17-9': 'POST /allocations or reshaper naming >= 2 never-seen consumers and a non-HTTP database failure while the second is being ensured',
+    'C17-10': 'DELETE provider with dependents and a deadlock with server-side rollback exactly at the final DELETE FROM resource_providers',
+    'C18-9': 'PUT allocations at 1.0-1.7 for a consumer that already holds allocations, crash after the first of two commits (two files)',
+    'C18-10': 'PUT provider traits that both removes and adds a trait, crash between the two commits',
+    'C19-9': 'two concurrent PUT /resource_classes/CUSTOM_X (>= 1.7) for a new name; loser on the unique constraint answers 201',
+    'C19-10': 'partially synchronised table where a missing standard class name is a substring of a present one (VGPU / VGPU_DISPLAY_HEAD), then a start-up',
     'C01-5': 'PUT/POST for a not-yet-existing consumer whose first attempt is retried server-side after a racing write bumped the provider (two cooperating edits)',
     'C01-6': 'old microversion (< 1.28): allocate, shrink the inventory / change step_size, re-PUT the identical allocations',
     'C02-5': 'candidate for a string-suffixed group (>= 1.34) sent back unchanged including its mappings',
